@@ -12,6 +12,7 @@ import (
 	"sort"
 	"strings"
 	"sync"
+	"sync/atomic"
 	"time"
 
 	"github.com/wundergraph/graphql-go-tools/v2/pkg/ast"
@@ -416,9 +417,19 @@ func c08DepsJSON(deps map[int][]int, known []int) [][2]any {
 
 // ---- gated execution through the real loader -------------------------------------------------------
 
+// events of the two channels are ordered by a shared sequence number taken right before the send: a select picks at
+// random among ready channels, so the order of receipt says nothing about the order in which they happened
+type c08Ev struct {
+	id  int
+	ds  string
+	seq int64
+}
+
+var c08Seq int64
+
 type c08Ctrl struct {
 	mu      sync.Mutex
-	started chan int
+	started chan c08Ev
 	release map[int]chan struct{}
 	inputs  map[int]string
 	values  map[int]string
@@ -426,7 +437,7 @@ type c08Ctrl struct {
 }
 
 func newC08Ctrl(fs []c08Fetch) *c08Ctrl {
-	c := &c08Ctrl{started: make(chan int, 64), release: map[int]chan struct{}{}, inputs: map[int]string{}, values: map[int]string{}, fail: map[int]bool{}}
+	c := &c08Ctrl{started: make(chan c08Ev, 64), release: map[int]chan struct{}{}, inputs: map[int]string{}, values: map[int]string{}, fail: map[int]bool{}}
 	for _, f := range fs {
 		c.release[f.ID] = make(chan struct{})
 	}
@@ -439,7 +450,7 @@ func (c *c08Ctrl) load(id int, input []byte) ([]byte, error) {
 	c.mu.Lock()
 	c.inputs[id] = string(input)
 	c.mu.Unlock()
-	c.started <- id
+	c.started <- c08Ev{id: id, seq: atomic.AddInt64(&c08Seq, 1)}
 	<-c.release[id]
 	// the value of a fetch is a function of its key and of the dependency values it was given
 	var in struct {
@@ -467,11 +478,11 @@ func (c *c08Ctrl) load(id int, input []byte) ([]byte, error) {
 	return []byte(fmt.Sprintf(`{"data":{"f%d":%q}}`, in.Key, v)), nil
 }
 
-type c08Hooks struct{ finished chan string }
+type c08Hooks struct{ finished chan c08Ev }
 
 func (h *c08Hooks) OnLoad(ctx context.Context, ds resolve.DataSourceInfo) context.Context { return ctx }
 func (h *c08Hooks) OnFinished(ctx context.Context, ds resolve.DataSourceInfo, info *resolve.ResponseInfo) {
-	h.finished <- ds.ID
+	h.finished <- c08Ev{ds: ds.ID, seq: atomic.AddInt64(&c08Seq, 1)}
 }
 
 // enabled(tree, done, started): the fetches whose start the tree semantics allows now
@@ -524,7 +535,7 @@ func c08Execute(fs []c08Fetch, o c08Opts, r *rand.Rand) (run c08Run, tree *c08Tr
 	defer cancel()
 	res := resolve.New(ctx, resolve.ResolverOptions{MaxConcurrency: 64, PropagateSubgraphErrors: true})
 	rctx := resolve.NewContext(ctx)
-	hooks := &c08Hooks{finished: make(chan string, 64)}
+	hooks := &c08Hooks{finished: make(chan c08Ev, 64)}
 	rctx.LoaderHooks = hooks
 	var buf bytes.Buffer
 	doneCh := make(chan error, 1)
@@ -558,7 +569,8 @@ func c08Execute(fs []c08Fetch, o c08Opts, r *rand.Rand) (run c08Run, tree *c08Tr
 				break
 			}
 			select {
-			case id := <-ctrl.started:
+			case ev := <-ctrl.started:
+				id := ev.id
 				started[id] = true
 				run.Trace = append(run.Trace, fmt.Sprintf("start %d", id))
 				ok := false
@@ -589,19 +601,36 @@ func c08Execute(fs []c08Fetch, o c08Opts, r *rand.Rand) (run c08Run, tree *c08Tr
 		released[id] = true
 		close(ctrl.release[id])
 		select {
-		case ds := <-hooks.finished:
-			if ds != fmt.Sprintf("ds%d", id) {
-				viol = fmt.Sprintf("released fetch %d but %s finished", id, ds)
+		case fev := <-hooks.finished:
+			if fev.ds != fmt.Sprintf("ds%d", id) {
+				viol = fmt.Sprintf("released fetch %d but %s finished", id, fev.ds)
 			}
 			done[id] = true
 			run.Trace = append(run.Trace, fmt.Sprintf("done %d", id))
-		case id2 := <-ctrl.started:
-			// a fetch started between release and merge of another one: only legal if it was enabled before
-			started[id2] = true
-			run.Trace = append(run.Trace, fmt.Sprintf("start %d", id2))
-			viol = fmt.Sprintf("fetch %d started before the released fetch %d was merged, although every enabled fetch had already started", id2, id)
-			<-hooks.finished
+		case sev := <-ctrl.started:
+			// a fetch started between release and merge of another one: only legal if the merge was reported first
+			id2 := sev.id
+			fev := <-hooks.finished
 			done[id] = true
+			if fev.seq < sev.seq {
+				// (both events were ready; the merge happened first — the start is judged by the next round)
+				run.Trace = append(run.Trace, fmt.Sprintf("done %d", id), fmt.Sprintf("start %d", id2))
+				started[id2] = true
+				enabled2, _ := c08Enabled(tree, done)
+				ok := false
+				for _, e := range enabled2 {
+					if e == id2 {
+						ok = true
+					}
+				}
+				if !ok {
+					viol = fmt.Sprintf("fetch %d was started although the fetch tree %s does not allow it yet (merged so far: %v)", id2, tree, keysOf(done))
+				}
+			} else {
+				started[id2] = true
+				run.Trace = append(run.Trace, fmt.Sprintf("start %d", id2), fmt.Sprintf("done %d", id))
+				viol = fmt.Sprintf("fetch %d started before the released fetch %d was merged, although every enabled fetch had already started", id2, id)
+			}
 		case <-watchdog:
 			return run, tree, fmt.Sprintf("watchdog: released fetch %d never finished", id)
 		}
